@@ -187,15 +187,24 @@ def _decompress_body_gzip(data: bytes, *, max_output_size: int | None = None) ->
     cannot be trusted for a bomb-cap precheck.  Defence-in-depth is a
     bounded streaming loop: feed input through ``decompressobj`` and
     bail the moment ``max_output_size`` is exceeded.
+
+    A stream that ends before the gzip member does (so its CRC32/ISIZE
+    trailer was never checked) raises :class:`DecompressionError`.
     """
     do = zlib.decompressobj(_GZIP_WBITS)
     if max_output_size is None:
-        return do.decompress(data) + do.flush()
+        out = do.decompress(data) + do.flush()
+        if not do.eof:
+            raise DecompressionError("Truncated gzip stream: input ended before the end of the gzip member")
+        return out
 
     chunks: list[bytes] = []
     total = 0
     remaining = data
-    while remaining or do.unconsumed_tail:
+    # Stop at the end of the gzip member: once ``eof`` is set zlib no longer
+    # touches ``unconsumed_tail``, so bytes that follow the member would keep
+    # this loop spinning forever.  They are ignored, as in the uncapped path.
+    while (remaining or do.unconsumed_tail) and not do.eof:
         if do.unconsumed_tail:
             inbuf = do.unconsumed_tail
         else:
@@ -214,6 +223,8 @@ def _decompress_body_gzip(data: bytes, *, max_output_size: int | None = None) ->
         if total > max_output_size:
             raise DecompressionLimitExceeded(f"Decompressed gzip output exceeds max_output_size={max_output_size}")
         chunks.append(tail)
+    if not do.eof:
+        raise DecompressionError("Truncated gzip stream: input ended before the end of the gzip member")
     return b"".join(chunks)
 
 
